@@ -81,9 +81,14 @@ def run(chk, tier, replay=None):
             us = rng.choice([0, 50, 500, 2000])
             vs.append(equiv.Variant("sched %d:%d:%d" % (seed, pm, us), sched="%d:%d:%d" % (seed, pm, us)))
         groups.append((base, vs))
+    def sig4(base):
+        s_ = common.feature_sig(base)
+        if int(base.get("frames", 0)) > 36:  # longer than the picture-control-set pool: objects are recycled
+            s_ += "+recycled-pcs"
+        return s_
     key_of = lambda base, v, kind: "C04|%s|%s" % (
         {"differs": "nondeterministic-output", "hang": "encode-hang", "crash": "encoder-crash"}[kind],
-        common.hang_sig(base) if kind == "hang" else common.feature_sig(base))
+        common.hang_sig(base) if kind == "hang" else sig4(base))
     results = equiv.run_groups(chk, "C04", groups, key_of, hang_in_scope=True, trace=True, per_result=per_result,
                                confirm_baseline=False)
     per_group = {}
